@@ -110,7 +110,8 @@ pub fn replay(v: &Value) -> bool {
         "C06" => c06::replay(r),
         "C02" => c02::replay(r),
         _ => {
-            eprintln!("no replay for {}", prop);
+            println!("cases of {} are replayed by re-running the leg with the recorded seed", prop);
+            crate::util::not_replayable();
             false
         }
     }
